@@ -18,9 +18,9 @@ CHECKS = {
 }
 CHECKS["C20"] = {
 	"text": "Inductive step decided by CBMC on the real add/get/get_or_set/cleanup bodies from an ARBITRARY cache state satisfying a representation invariant "
-		"(plus the base case with_maximum_size): capacity, transparency, get-or-compute and just-used-survives hold after histories of any length, for capacities 1..3 (quick) / 1..4 (thorough). "
+		"(plus the base case with_maximum_size): capacity, transparency, get-or-compute and just-used-survives hold after histories of any length, for capacities 1..3 (quick) / 1..6 and 8 (thorough). "
 		"An inductive step is the only way a bounded solver query covers unbounded histories.",
-	"note": "HashMap replaced by an association-list model (hashing outside the claim); entry count and capacity concrete per instance (len <= cap <= 4), keys/values/stamps symbolic; capacities > 4 outside the bound.",
+	"note": "HashMap replaced by an association-list model (hashing outside the claim); entry count and capacity concrete per instance (len <= cap <= 8), keys/values/stamps symbolic; capacities > 8 (and 7) outside the bound.",
 	"technique": "inductive invariant step, bounded model checking of the real Rust code (Kani/CBMC + CaDiCaL)",
 }
 BMCT = "bounded model checking of the real Rust code (Kani/CBMC + CaDiCaL) over symbolic inputs"
@@ -36,7 +36,7 @@ CHECKS["C01"] = {
 	"text": "Layout kernels of the versatiles v02 and PMTiles v3 writers/readers: file header, block definition, tile index, PMTiles header and codes, Hilbert tile ids. "
 		"For all field values CBMC shows (a) an independent decoder written from the published layout recovers every field from the written bytes and (b) reader(writer(x)) = x. "
 		"Whether a written file can be read back, and by a foreign decoder, is decided by exactly this arithmetic.",
-	"note": "Outside the claim (stated in evidence): order/positions of the async writers' I/O operations, de-duplication, PMTiles directory serialisation (EntriesV3::serialize: CBMC out of memory at 1 entry) and the 16 KiB root/leaf split, metadata, MBTiles/tar/directory, real compression, tile id round trip above zoom 10 (differential vs the spec algorithm up to zoom 31).",
+	"note": "Outside the claim (stated in evidence): order/positions of the async writers' I/O operations, de-duplication, PMTiles directory serialisation (EntriesV3::serialize: CBMC out of memory at 1 entry) and the 16 KiB root/leaf split, metadata, MBTiles/tar/directory, real compression, tile id round trip at zoom levels other than the instances {0, 1, 3, 6, 10, 14, 20, 31} (differential vs the spec algorithm at {0, 1, 2, 5, 8, 12, 16, 24, 31}).",
 	"technique": BMCT + "; differential against an independent layout decoder / reference Hilbert algorithm",
 }
 CHECKS["C16"] = {
@@ -68,7 +68,7 @@ CHECKS["C05"] = {
 	"technique": BMCT,
 }
 CHECKS["C07"] = {
-	"text": "The real Folder::get_data composed with a byte-level model of std::path (join/starts_with) and File::open as the I/O boundary: for EVERY request of up to 3 (quick) / 6 (thorough) bytes over {'/','.','a','%','2','e','\\'} the path handed to File::open resolves inside the root. "
+	"text": "The real Folder::get_data composed with a byte-level model of std::path (join/starts_with) and File::open as the I/O boundary: for EVERY request of up to 3 (quick) / 9 (thorough) bytes over {'/','.','a','%','2','e','\\'} the path handed to File::open resolves inside the root. "
 		"The byte-level model of Url::has_parent_segment used there is shown equal to the real helper by separate harnesses. A counterexample is replayed natively against Folder::from + get_data with a canary file outside the root.",
 	"note": "std::path functions are modelled from their documented semantics (the real Components state machine is out of reach for CBMC); symlinks, the tar source (exact-name lookup), the HTTP layer and percent-decoding (there is none) are outside the claim.",
 	"technique": BMCT + " with a std::path model; compositional (helper proven equal to its model)",
